@@ -6,7 +6,7 @@ import subprocess
 import vf
 
 CORPUS = os.path.join(vf.HARNESS, "typecorpus")
-TYPE_ERRORS = {"E0277", "E0308", "E0271", "E0369", "E0599", "E0282", "E0283", "E0107", "E0061", "E0631", "E0605", "E0614", "E0600"}
+TYPE_ERRORS = {"E0277", "E0308", "E0271", "E0369", "E0599", "E0282", "E0283", "E0284", "E0107", "E0061", "E0631", "E0605", "E0614", "E0600"}
 
 MONO_OPS = {"TransposeRaw"}
 
@@ -21,6 +21,8 @@ def ty(t):
         return "re::math::point::Point%s<%s>" % (t[1], BASIS[t[2]])
     if k == "Col":
         return "re::math::color::%s<re::math::color::%s>" % ("Color3" if t[1] == "u8" else "Color3f", t[2])
+    if k == "Col4":
+        return "re::math::color::Color<[%s; 4], re::math::color::%s>" % (t[1], t[2])
     if k == "Mat4":
         return "re::math::mat::Mat4x4<re::math::mat::RealToReal<3, %s, %s>>" % (BASIS[t[1]], BASIS[t[2]])
     if k == "Mat3":
@@ -79,10 +81,23 @@ RENDER = """    use re::geom::{{Tri, Vertex}};
 """
 
 
+RENDER_FS = """    use re::geom::{{Tri, Vertex}};
+    let vs = |_: Vertex<re::math::point::Point3<re::render::Model>, ()>, _: ()| -> Vertex<re::math::vec::ProjVec4, f32> {{ mk() }};
+    let fs = |_: re::render::raster::Frag<f32>| -> {out} {{ mk() }};
+    let sh = re::render::shader::Shader::new(vs, fs);
+    let mut target: re::util::buf::Buf2<u32> = mk();
+    let tris: Vec<Tri<usize>> = mk();
+    let verts: Vec<Vertex<re::math::point::Point3<re::render::Model>, ()>> = mk();
+    re::render::render(&tris, &verts, &sh, (), mk(), &mut target, &mk::<re::render::Context>());
+"""
+
+
 def render_fn(i, prog):
     op, args = prog["op"], prog["args"]
     lines = ["pub fn p%d() {" % i]
-    if op == "Render":
+    if op == "RenderFs":
+        lines += RENDER_FS.format(out=ty(args[0])).rstrip("\n").split("\n")
+    elif op == "Render":
         lines += RENDER.format(out=ty(args[0])).rstrip("\n").split("\n")
     else:
         for name, t in zip("ab", args):
